@@ -92,6 +92,9 @@ def measure_offsets(fn: Fn, M: ast.expr) -> Optional[List[Tuple[str, int]]]:
                 return [("start column + len(text) = end column + 1", 1)]
     if isinstance(M, ast.Call) and text(M.func) == "len" and len(M.args) == 1 and isinstance(M.args[0], ast.Name):
         return _line_len_kinds(fn, M.args[0].id)
+    if isinstance(M, ast.BinOp) and isinstance(M.op, ast.Sub) and (text(M.left).endswith(".pos[0]") or text(M.left).endswith(".lineno")):
+        # (line of the closing brace) - (line of the opening brace): lines strictly between = difference - 1
+        return [("difference of the closing and the opening brace's line numbers = body lines + 1", 1)]
     if t.endswith("scope.lines"):
         return [("scope.lines read at the closing brace = body lines + the line of the opening brace", 1)]
     if t.endswith("scope.functions") or t.endswith(".functions"):
